@@ -39,6 +39,15 @@ func (v *Verifier) tryReplay(prop string, o *Oblig, rec map[string]interface{}) 
 	if o.Func != v.funcKey(fn) {
 		return false // the failing instruction is inside an inlined callee or a closure
 	}
+	// the instance must satisfy the contract's preconditions: it does when they only ask
+	// for non-nil parameters (which the instance provides); otherwise no replay
+	if c := o.ex.root().c; c != nil {
+		for _, r := range c.Requires {
+			if !onlyNonNilParams(r.E) {
+				return false
+			}
+		}
+	}
 	pkg := fn.Pkg.Pkg
 	dir := strings.TrimPrefix(strings.TrimPrefix(pkg.Path(), v.Module), "/")
 	if dir == "" {
@@ -165,3 +174,17 @@ func runReplay(path, repo, verif string) int {
 }
 
 var _ = ssa.BuilderMode(0)
+
+// onlyNonNilParams: the clause is a conjunction of `<identifier> != nil`.
+func onlyNonNilParams(e *SExpr) bool {
+	if e == nil {
+		return false
+	}
+	if e.Kind == SBin && e.Name == "&&" {
+		return onlyNonNilParams(e.Args[0]) && onlyNonNilParams(e.Args[1])
+	}
+	if e.Kind == SBin && e.Name == "!=" && len(e.Args) == 2 {
+		return e.Args[0].Kind == SIdent && e.Args[1].Kind == SIdent && e.Args[1].Name == "nil"
+	}
+	return false
+}
